@@ -886,7 +886,7 @@ theorem witness_projectPointToScreen_depth : Gen.Frustum.projectPointToScreen_pe
 example : interiorPersp (1 : ℚ) 10 (-2) 3 2 (-1) ⟨1, 1, -2⟩ ∧ regionPersp (1 : ℚ) 10 (-2) 3 2 (-1) ⟨3, 2, -1⟩ ∧
     ¬ regionPersp (1 : ℚ) 10 (-2) 3 2 (-1) ⟨0, 0, 0⟩ := by
   refine ⟨?_, ?_, ?_⟩ <;> norm_num [interiorPersp, regionPersp]
-/-- the length hypothesis is satisfiable: the extracted `Vec3::length` over ℝ with the real square root (all 65 paths) -/
+/-- the length hypothesis is satisfiable: the extracted `Vec3::length` over ℝ with the real square root (all 129 paths) -/
 example (tmin tmax : ℝ) : LenSpec (Gen.V3.length tmin tmax Real.sqrt) := lenSpec_real tmin tmax
 /-- … so e.g. the region theorem applies to the real frustum with these numbers -/
 theorem witness_planes_persp_region_real (p : V3 ℝ) : inAllPlanes (Gen.Frustum.planes_persp (2⁻¹ ^ 1022) (2 ^ 1024) Real.sqrt 1 10 (-2) 3 2 (-1)) p ↔ regionPersp 1 10 (-2) 3 2 (-1) p :=
